@@ -642,6 +642,18 @@ func (c *Conn) readRecordOrCCS(expectChangeCipherSpec bool) error {
 			return c.in.setErrorLocked(c.newRecordHeaderError(c.remoteAddr, fmt.Sprintf("record length %d exceeds datagram", n)))
 		}
 
+		// 先按 epoch 过滤，再解密：旧 epoch 的记录（对端重传的上一 flight、重复报文）使用的是旧密钥，
+		// 未来 epoch 的记录（乱序先到）密钥尚未就绪，用当前密钥解密必然失败并会错误地终止连接。
+		if epoch != c.readEpoch {
+			// 2*MSL 驻留：握手完成后收到对端重传的旧 epoch CCS，说明对端没有收到最后一 flight，重发之
+			if epoch < c.readEpoch && handshakeComplete && typ == recordTypeChangeCipherSpec &&
+				!c.dwellDeadline.IsZero() && time.Now().Before(c.dwellDeadline) && len(c.flightRetransmit) > 0 {
+				c.pconn.WriteTo(c.flightRetransmit, c.remoteAddr)
+			}
+			c.rawInputBuf = c.rawInputBuf[recordHeaderLen+n:]
+			continue
+		}
+
 		// 将 epoch + seq_num 写入 in.seq（供 decrypt 中的 MAC/AAD 使用）
 		c.in.seq[0] = hdr[3]
 		c.in.seq[1] = hdr[4]
@@ -660,20 +672,6 @@ func (c *Conn) readRecordOrCCS(expectChangeCipherSpec bool) error {
 		}
 
 		// 重放检查（解密成功后执行，RFC 6347 §4.1.2.6）
-		if epoch < c.readEpoch {
-			// 旧 epoch：静默丢弃，继续下一条记录
-			c.rawInputBuf = c.rawInputBuf[recordHeaderLen+n:]
-			continue
-		}
-		if epoch > c.readEpoch {
-			c.readEpoch = epoch
-			c.readSeq = 0
-			windowSize := defaultReplayWindowSize
-			if c.config != nil && c.config.ReplayWindow > 0 {
-				windowSize = c.config.ReplayWindow
-			}
-			c.replayWindow = newReplayWindow(windowSize)
-		}
 		if !c.replayWindow.check(seqNum) {
 			// 重放检测：静默丢弃
 			c.rawInputBuf = c.rawInputBuf[recordHeaderLen+n:]
@@ -1440,6 +1438,11 @@ func (c *Conn) ReadFrom(p []byte) (n int, addr net.Addr, err error) {
 		c.in.seq[6] = hdr[9]
 		c.in.seq[7] = hdr[10]
 
+		// 其它 epoch 的记录不属于当前密钥：直接丢弃（不解密）
+		if epoch != c.readEpoch {
+			continue
+		}
+
 		record := c.rawInputBuf[:recordHeaderLen+recLen]
 		plaintext, actualTyp, err := c.in.decrypt(record)
 		if err != nil {
@@ -1447,19 +1450,6 @@ func (c *Conn) ReadFrom(p []byte) (n int, addr net.Addr, err error) {
 		}
 
 		// 重放检查（解密成功后执行，RFC 6347 §4.1.2.6）
-		if epoch < c.readEpoch {
-			// 旧 epoch：静默丢弃
-			continue
-		}
-		if epoch > c.readEpoch {
-			c.readEpoch = epoch
-			c.readSeq = 0
-			windowSize := defaultReplayWindowSize
-			if c.config != nil && c.config.ReplayWindow > 0 {
-				windowSize = c.config.ReplayWindow
-			}
-			c.replayWindow = newReplayWindow(windowSize)
-		}
 		if !c.replayWindow.check(seqNum) {
 			// 重放检测：静默丢弃
 			continue
